@@ -11,9 +11,10 @@ Require Pyrefact.IgnoreModel.
    the harness checks that on every source). *)
 Theorem T14_1_no_match_identity :
   forall (valid : text -> bool) (equiv : text -> text -> bool) (wrap : range -> bool) (mlstr : text -> bool)
-         (restore : text -> text -> text) (src tmpl : text) (coms : option (list nat)) (count : Z),
+         (strl : text -> list nat) (restore : text -> text -> text) (src tmpl : text) (coms : option (list nat))
+         (count : Z),
     (forall s, restore s s = s) ->
-    subn_items src tmpl count [] = Some [] /\ subn_output valid equiv wrap mlstr restore src coms [] = src.
+    subn_items strl src tmpl count [] = Some [] /\ subn_output valid equiv wrap mlstr restore src coms [] = src.
 Proof. exact no_match_identity. Qed.
 Print Assumptions T14_1_no_match_identity.
 
@@ -268,3 +269,60 @@ Example T14_9_pad_example :
   pad_braces (fun _ => true) (fun _ _ => false) src (3, 7)%Z (text_of_string "{x, 2}")
   = text_of_string " {x, 2} "%string.
 Proof. vm_compute. reflexivity. Qed.
+
+(* T14.10 (round 5, seed C14-d) lines that begin inside a string literal are content: the indentation step of
+   find_replace leaves every line of the INSTANTIATED, dedented replacement that the tokenizer flags
+   (strl = _lines_inside_string_literals, asked about that text) byte-identical, whatever the indentation of
+   the matched line and wherever the literal comes from (template or binding: the docstring of a bound def) ... *)
+Theorem T14_10_string_lines_verbatim :
+  forall (strl : text -> list nat) (src : text) (r : range) (filled : text) (j : nat),
+    In j (strl (dedent filled)) ->
+    nth_error (split_nl (place_replacement strl src r filled)) j = nth_error (split_nl (dedent filled)) j.
+Proof. exact place_replacement_string_lines_verbatim. Qed.
+Print Assumptions T14_10_string_lines_verbatim.
+
+(* ... every line of the yielded text is the line of the dedented text, with the indentation of the matched line
+   in front iff it is not the first line, not flagged and not blank *)
+Theorem T14_10_line_cases :
+  forall (strl : text -> list nat) (src : text) (r : range) (filled : text) (j : nat),
+    nth_error (split_nl (place_replacement strl src r filled)) j
+    = option_map (fun l => if line_kept false (strl (dedent filled)) j l then l
+                           else spaces (match_indentation src r) ++ l)
+                 (nth_error (split_nl (dedent filled)) j).
+Proof. exact place_replacement_line_cases. Qed.
+Print Assumptions T14_10_line_cases.
+
+(* ... and format_template (f83e193) leaves the flagged lines of a binding alone when it indents the binding's
+   other lines like the slot *)
+Theorem T14_10_binding_string_lines_verbatim :
+  forall (strl : text -> list nat) (k : nat) (v : text) (j : nat),
+    In j (strl v) -> nth_error (split_nl (indent_binding strl k v)) j = nth_error (split_nl v) j.
+Proof. exact indent_binding_string_lines_verbatim. Qed.
+Print Assumptions T14_10_binding_string_lines_verbatim.
+
+(* `if D:` + `    {{s}}` -> `{{s}}` on a method with a two-line docstring in a class body: line 2 of the bound
+   text begins inside the literal (tokenizer: [2]) and stays at its column, the code lines follow the match;
+   a tokenizer that is not asked (answers []) moves the docstring line: the yielded texts differ *)
+Example T14_10_docstring_example :
+  let src := text_of_string "class K:
+    if D:
+        def f():
+            '''a
+          b'''
+            return 1
+"%string in
+  let filled := text_of_string "def f():
+    '''a
+          b'''
+    return 1"%string in
+  place_replacement (fun _ => [2%nat]) src (13, 86)%Z filled
+  = text_of_string "def f():
+        '''a
+          b'''
+        return 1"%string
+  /\ place_replacement (fun _ => []) src (13, 86)%Z filled
+  = text_of_string "def f():
+        '''a
+              b'''
+        return 1"%string.
+Proof. vm_compute. split; reflexivity. Qed.
